@@ -1,10 +1,14 @@
 """C18 -- analytic flows are self-consistent; pathlines follow them inside the domain."""
 from __future__ import annotations
 
+import gc
+import json
 import logging
 import math
 import os
 import signal
+import subprocess
+import tempfile
 import warnings
 
 import numpy as np
@@ -15,7 +19,8 @@ from common import hx, unhx
 
 GROUP = "velocity"
 FILES = ["gen/Gen_velocity.v", "gen/Gen_velocity_utils.v", "Model_pathlines.v", "Proofs_velocity.v",
-         "Proofs_pathlines.v", "Entry_velocity.v", "Extract_velocity.v"]
+         "Proofs_pathlines.v", "Model_pathline_session.v", "Proofs_pathline_session.v", "Entry_velocity.v",
+         "Extract_velocity.v"]
 PROP = "Properties/C18.v"
 FINDING_FILES = {"shear": "Findings/C18_shear.v", "cell": "Findings/C18_cell.v"}
 LETTERS = "XYZ"
@@ -274,12 +279,30 @@ def pathline_specs(rng, tier):
     return specs
 
 
-def run_pathline(spec):
+def fresh_pathlines_module():
+    """A private copy of pydrex.pathlines with fresh module-level state (not registered in
+    sys.modules): whatever an earlier call may have left in the module cannot reach it."""
+    import importlib.util
+    sp = importlib.util.find_spec("pydrex.pathlines")
+    mod = importlib.util.module_from_spec(sp)
+    sp.loader.exec_module(mod)
+    return mod
+
+
+def run_pathline(spec, callables=None, raw_args=None, module=None):
     """Run pydrex.pathlines.get_pathline, recording every call of the terminal event and
-    solve_ivp's own result.  Returns a dict."""
-    import pydrex.pathlines as P
+    solve_ivp's own result.  Returns a dict.
+    callables: the (velocity, gradient) pair to use (default: a new flow built from `spec`);
+    raw_args: the objects (final_location, min_coords, max_coords, max_strain) to pass as they
+    are (lists, float32 arrays, arrays shared between calls ...; default: fresh float64 copies);
+    module: the pydrex.pathlines module object to call (default: the imported one)."""
+    if module is None:
+        import pydrex.pathlines as P
+    else:
+        P = module
     flow, hl, vl, ps, mn, mx, p, ms, steps = spec
-    u, L = make_flow(flow, hl, vl, ps)
+    u, L = callables if callables is not None else make_flow(flow, hl, vl, ps)
+    a_p, a_mn, a_mx, a_ms = raw_args if raw_args is not None else (p.copy(), mn.copy(), mx.copy(), ms)
     rec = {"calls": [], "t": None, "status": None, "exc": None}
     real = P.si.solve_ivp
 
@@ -306,8 +329,8 @@ def run_pathline(spec):
     try:
         with warnings.catch_warnings():
             warnings.simplefilter("ignore")
-            ts, f = P.get_pathline(p.copy(), u, L, mn.copy(), mx.copy(), max_strain=ms, regular_steps=steps)
-        rec["ts"], rec["f"] = np.array(ts), f
+            ts, f = P.get_pathline(a_p, u, L, a_mn, a_mx, max_strain=a_ms, regular_steps=steps)
+        rec["ts"], rec["f"], rec["ts_obj"] = np.array(ts), f, ts
     except Exception as e:  # noqa: BLE001
         rec["exc"] = (type(e).__name__, str(e)[:200])
     finally:
@@ -334,7 +357,8 @@ def check_pathline(chk, spec, rec, stats):
     u, L = rec["u"], rec["L"]
     # ---- the stateful event: replay the recorded call history through the extracted model
     calls = rec["calls"]
-    if calls:
+    have_model = os.path.exists(os.path.join(common.EXTRACT, GROUP, "driver"))     # absent only in a bare replay
+    if calls and have_model:
         xs = [ms] + list(mn) + list(mx) + list(ps)
         for (t, y, _) in calls:
             inside = bool(np.all(y >= mn) and np.all(y <= mx))
@@ -355,12 +379,20 @@ def check_pathline(chk, spec, rec, stats):
         return fails
     # ---- oracle hypothesis about solve_ivp + the post-processing model
     t = rec["t"]
-    if not (t[0] == 0.0 and np.all(np.diff(t) < 0)):
-        fails.append(f"oracle hypothesis violated: solve_ivp times do not start at 0 and strictly decrease: {t[:4]}")
-    m = common.run_model([common.model_line("timestamps", [0 if steps is None else 1, steps or 0], list(t))], group=GROUP)[0]
     ts = rec["ts"]
-    if m[0] != "OK" or not common.vec_close(list(ts), m[1], rtol=1e-12, atol=1e-15 * abs(t[-1]))[0]:
-        fails.append(f"time stamps: implementation {list(ts)[:4]}... vs model {m[1][:4] if m[0] == 'OK' else m}")
+    if t is None:
+        # the model: get_pathline = post-processing of THIS call's solve_ivp result (a function of the
+        # arguments, Model_pathline_session.get_pathline); a result that was not computed by this call
+        # can only come from state left behind by an earlier call
+        fails.append("get_pathline returned a pathline without calling solve_ivp: the result was not computed from "
+                     "this call's arguments (state carried over from an earlier call)")
+        t = np.array([0.0, float(ts[0])]) if len(ts) else np.array([0.0, -1.0])
+    else:
+        if not (t[0] == 0.0 and np.all(np.diff(t) < 0)):
+            fails.append(f"oracle hypothesis violated: solve_ivp times do not start at 0 and strictly decrease: {t[:4]}")
+        m = ("OK", list(ts)) if not have_model else common.run_model([common.model_line("timestamps", [0 if steps is None else 1, steps or 0], list(t))], group=GROUP)[0]
+        if m[0] != "OK" or not common.vec_close(list(ts), m[1], rtol=1e-12, atol=1e-15 * abs(t[-1]))[0]:
+            fails.append(f"time stamps: implementation {list(ts)[:4]}... vs model {m[1][:4] if m[0] == 'OK' else m}")
     # ---- runtime-checked clauses (not provable: they are about solve_ivp's trajectory)
     f = rec["f"]
     size = float(np.max(mx - mn))
@@ -400,7 +432,7 @@ def check_pathline(chk, spec, rec, stats):
         hstep = 1e-5 * T
         for tau in -T * np.array([0.08, 0.2, 0.35, 0.5, 0.65, 0.8, 0.93]):
             x = np.asarray(f(tau))
-            margin = 1e-3 * size
+            margin = 1e-3 * size * (mx > mn)      # an axis with min == max (2D set-up in 3D) has no interior
             if np.any(x < mn + margin) or np.any(x > mx - margin):
                 continue
             try:
@@ -439,6 +471,428 @@ def is_known_pathline_failure(spec, rec, event_fails):
     machine of Model_pathlines produces (so nothing else went wrong)."""
     return (rec["exc"] is not None and rec["exc"][0] == "ValueError" and BRENTQ_MSG in rec["exc"][1]
             and spec[0] in (1, 2) and not event_fails)
+
+
+# --------------------------------------------------------------------------
+# call sequences: get_pathline is a function of its arguments (Model_pathline_session.v)
+# --------------------------------------------------------------------------
+# A scenario is a list of steps executed one after the other IN ONE PROCESS:
+#   {"op": "flow", "slot": k, "flow": name, "h": letter, "v": letter, "ps": [hex]}   build a flow into slot k
+#   {"op": "drop", "slot": k}                    forget the flow of slot k, then gc.collect()
+#   {"op": "path", "slot": k, "p"/"mn"/"mx": [hex], "ms": hex, "steps": n|None,
+#    "as": container, "reuse": bool, "scribble": bool}                       one get_pathline call
+# "as": how the arguments are handed over (float64 arrays | lists | tuples | float32 | integer box);
+# "reuse": the SAME three ndarray objects as in the previous reuse-call of the scenario, overwritten in
+# place; "scribble": after the result has been looked at, the caller overwrites the returned time stamps
+# in place (a result handed out by reference must not be what a later call returns).
+SEQ_CALL = "sequence of pydrex.pathlines.get_pathline calls in one process"
+SEQ_FRACTIONS = [k / 8 for k in range(9)]
+CONTAINERS = ("array", "list", "list_all", "tuple_box", "float32", "int_box")
+
+
+def _flow_step(slot, flow, hl, vl, ps):
+    return {"op": "flow", "slot": slot, "flow": FLOWS[flow], "h": hl, "v": vl, "ps": [hx(a) for a in ps]}
+
+
+def _drop_step(slot):
+    return {"op": "drop", "slot": slot}
+
+
+def _path_step(slot, p, mn, mx, ms, steps=None, as_="array", reuse=False, scribble=False):
+    return {"op": "path", "slot": slot, "p": [hx(a) for a in p], "mn": [hx(a) for a in mn], "mx": [hx(a) for a in mx],
+            "p_float": [float(a) for a in p], "ms": hx(ms), "steps": None if steps is None else int(steps),
+            "as": as_, "reuse": bool(reuse), "scribble": bool(scribble)}
+
+
+def step_spec(flowdef, st):
+    """the 9-tuple used by run_pathline / check_pathline for one `path` step"""
+    return (FLOWS.index(flowdef["flow"]), flowdef["h"], flowdef["v"], [unhx(a) for a in flowdef["ps"]],
+            np.array([unhx(a) for a in st["mn"]]), np.array([unhx(a) for a in st["mx"]]),
+            np.array([unhx(a) for a in st["p"]]), unhx(st["ms"]), st["steps"])
+
+
+def solver_key(flowdef, st):
+    """everything that reaches solve_ivp (`sargs` of the Coq model); regular_steps is not part of it"""
+    return (flowdef["flow"], flowdef["h"].upper(), flowdef["v"].upper(), tuple(flowdef["ps"]),
+            tuple(st["p"]), tuple(st["mn"]), tuple(st["mx"]), st["ms"])
+
+
+def seq_domain(rng, flow, h, v, physical=False):
+    """box, an interior end point and a base parameter list for one flow"""
+    o = 3 - h - v
+    mn, mx, p = np.zeros(3), np.zeros(3), np.zeros(3)
+    if flow == 0:
+        mn[:], mx[:] = -1.0, 1.0
+        p[:] = np.round(rng.uniform(-0.9, 0.9, 3) * 64) / 64        # exactly representable in float32 as well
+        ps = [float(10.0 ** rng.uniform(-2, 0.5))]
+    elif flow == 1:
+        d = float(rng.choice([2.0, 1.0, 10.0]))
+        mn[:], mx[:] = -d / 2, d / 2
+        p[:] = np.round(rng.uniform(-0.45, 0.45, 3) * 64) / 64 * d
+        ps = [float(10.0 ** rng.uniform(-1, 0.5)) * d / 2, d]
+    elif physical:
+        # the usual 2D-in-3D set-up in SI units: 1000 km x 200 km, dummy axis with min == max == 0
+        mn[h], mx[h], mn[v], mx[v] = 0.0, 1.0e6, -2.0e5, 0.0
+        p[h], p[v] = float(rng.uniform(0.05, 0.5)) * 1e6, -float(rng.uniform(0.1, 0.9)) * 2e5
+        ps = [float(rng.uniform(0.5, 2.0)) / (100.0 * 365.0 * 86400.0)]
+    else:
+        mn[h], mx[h], mn[v], mx[v], mn[o], mx[o] = 0.0, 2.0, -2.0, 0.0, -1.0, 1.0
+        p[h], p[v], p[o] = rng.uniform(0.05, 1.9), rng.uniform(-1.9, -0.05), rng.uniform(-0.9, 0.9)
+        ps = [float(10.0 ** rng.uniform(-1, 0.5))]
+    return mn, mx, p, ps
+
+
+def gen_scenarios(rng, tier):
+    """Call-sequence scenarios (every random choice comes from `rng`)."""
+    out = []
+    rep = 1 if tier == "quick" else 6
+    nsweep = 16 if tier == "quick" else 30
+    for r in range(rep):
+        # --- parameter sweeps of one flow family at a FIXED end point / box / strain limit; each flow is
+        #     dropped and garbage collected before the next one is built (a long amplitude / plate-speed sweep)
+        for flow in (0, 1, 2, 2, 0, 1):
+            second = len([1 for sc in out if sc["family"] == "sweep_drop_collect"]) % 6 >= 3
+            h, v = PAIRS[int(rng.integers(6))]
+            hl, vl = LETTERS[h], LETTERS[v]
+            mn, mx, p, ps = seq_domain(rng, flow, h, v, physical=(flow == 2 and not second))
+            ms = float(rng.choice([0.5, 1.0, 2.0])) if flow != 1 else float(rng.choice([0.25, 0.5, 1.0]))
+            ratio = float(rng.choice([1.5, 2.0, 10 ** 0.25]))
+            steps = None if second else [None, 40, 10][flow]
+            st = []
+            for k in range(nsweep):
+                st += [_flow_step(0, flow, hl, vl, [ps[0] * ratio ** k] + ps[1:]), _path_step(0, p, mn, mx, ms, steps), _drop_step(0)]
+            out.append({"family": "sweep_drop_collect", "flow": FLOWS[flow], "steps": st})
+        # --- the same kind of sweep with every flow kept alive, over the parameter and over the six axis pairs
+        flow = int(rng.integers(3))
+        mn, mx, p, ps = seq_domain(rng, flow, 0, 2)
+        if flow == 2:       # a box and a point that are legal for every axis pair: lower half space of every axis
+            mn[:], mx[:], p[:] = -2.0, 2.0, -rng.uniform(0.2, 1.5, 3)
+        ms = float(rng.choice([0.25, 0.5, 1.0]))
+        st = []
+        for k, (h, v) in enumerate(PAIRS):
+            st += [_flow_step(k, flow, LETTERS[h], LETTERS[v], ps), _path_step(k, p, mn, mx, ms, None)]
+        for k in range(4):
+            st += [_flow_step(6 + k, flow, "X", "Z", [ps[0] * 2.0 ** (k + 1)] + ps[1:]), _path_step(6 + k, p, mn, mx, ms, None)]
+        out.append({"family": "sweep_keep_alive", "flow": FLOWS[flow], "steps": st})
+        # --- repeated identical requests with one live flow: same objects handed in again, the caller
+        #     overwrites the returned time stamps in between, regular_steps varies
+        for _ in range(2):
+            flow = int(rng.integers(3))
+            h, v = PAIRS[int(rng.integers(6))]
+            mn, mx, p, ps = seq_domain(rng, flow, h, v)
+            ms = float(rng.choice([0.25, 0.5, 1.0]))
+            st = [_flow_step(0, flow, LETTERS[h], LETTERS[v], ps)]
+            for steps, scr in ((None, True), (None, True), (10, True), (None, False), (10, False), (3, False)):
+                st.append(_path_step(0, p, mn, mx, ms, steps, reuse=True, scribble=scr))
+            out.append({"family": "repeat_identical", "flow": FLOWS[flow], "steps": st})
+        # --- interleaved requests for two live flows at the same end point
+        for same_family in (True, False):
+            flow = int(rng.integers(2))          # shear / cell share the cube; the corner flow is used below
+            mn, mx, p, ps = seq_domain(rng, flow, 0, 2)
+            ms = float(rng.choice([0.25, 0.5, 1.0]))
+            if same_family:
+                a = _flow_step(0, flow, "X", "Z", ps)
+                b = _flow_step(1, flow, "X", "Z", [ps[0] * 3.0] + ps[1:])
+            else:
+                a = _flow_step(0, flow, "X", "Z", ps)
+                mn[:], mx[:] = -0.5, 0.5          # inside the unit cell, legal for shear as well
+                p[:] = np.round(rng.uniform(-0.4, 0.4, 3) * 64) / 64
+                b = _flow_step(1, 1 - flow, "Z", "X", [0.7] if flow == 1 else [0.7, 1.0])
+                if flow == 1:
+                    a = _flow_step(0, 1, "X", "Z", [0.5, 1.0])
+            st = [a, b]
+            for slot, steps in ((0, None), (1, None), (0, None), (1, 5), (1, None), (0, 5)):
+                st.append(_path_step(slot, p, mn, mx, ms, steps))
+            out.append({"family": "interleaved_two_live", "flow": a["flow"] + "+" + b["flow"], "steps": st})
+        # --- one live flow, one argument changed at a time, the three ndarray objects reused and overwritten
+        #     in place between the calls
+        for flow in (int(rng.integers(2)), 2):
+            h, v = PAIRS[int(rng.integers(6))]
+            mn, mx, p, ps = seq_domain(rng, flow, h, v)
+            ms = float(rng.choice([1.0, 2.0, 5.0]))
+            p2 = mn + (mx - mn) * (0.5 + 0.8 * ((p - mn) / (mx - mn) - 0.5))      # another interior point
+            mx2 = p + 0.5 * (mx - p)                                            # a smaller box around p
+            mn2 = p - 0.5 * (p - mn)
+            st = [_flow_step(0, flow, LETTERS[h], LETTERS[v], ps)]
+            for (pp, a, b, m, steps) in ((p, mn, mx, ms, None), (p, mn, mx, ms / 4, None), (p, mn, mx2, ms, None),
+                                         (p, mn2, mx, ms, None), (p2, mn, mx, ms, None), (p, mn, mx, ms, None), (p, mn, mx, ms, 7)):
+                st.append(_path_step(0, pp, a, b, m, steps, reuse=True))
+            out.append({"family": "one_argument_at_a_time", "flow": FLOWS[flow], "steps": st})
+        # --- the same request handed over in different containers / dtypes (all values exactly representable)
+        flow = int(rng.integers(2))
+        mn, mx, p, ps = seq_domain(rng, flow, 0, 2)
+        if flow == 1:
+            ps = [float(10.0 ** rng.uniform(-1, 0.5)), 2.0]
+            mn[:], mx[:] = -1.0, 1.0
+            p[:] = np.round(rng.uniform(-0.9, 0.9, 3) * 64) / 64
+        st = [_flow_step(0, flow, "x" if r % 2 else "X", "z" if r % 2 else "Z", ps)]
+        for c in CONTAINERS:
+            st.append(_path_step(0, p, mn, mx, 0.5, None, as_=c))
+        out.append({"family": "containers_and_dtypes", "flow": FLOWS[flow], "steps": st})
+    # --- boundary values (fixed): end points on a face / an edge / a corner of the box, on the line u = 0,
+    #     a strain limit so small / so large that the other stopping criterion decides, one resampling step
+    one = np.ones(3)
+    st = [_flow_step(0, 0, "X", "Z", [1.0])]
+    for pp, ms, steps in (([0.25, 0.5, 1.0], 0.5, None), ([0.25, 1.0, 1.0], 0.5, None), ([1.0, 1.0, 1.0], 0.5, None),
+                          ([0.3, 0.0, 0.0], 0.5, None), ([0.25, 0.5, -0.5], 1e-9, None), ([0.25, 0.5, -0.5], 1e6, None),
+                          ([0.25, 0.5, -0.5], 0.5, 1), ([-1.0, 0.5, -0.5], 0.5, None)):
+        st.append(_path_step(0, np.array(pp), -one, one, ms, steps))
+    out.append({"family": "boundary_values", "flow": FLOWS[0], "steps": st})
+    return out
+
+
+def _make_args(st, spec, shared):
+    """the objects handed to get_pathline for one `path` step"""
+    flow, hl, vl, ps, mn, mx, p, ms, steps = spec
+    if st.get("reuse"):
+        if not shared:
+            shared.update(p=p.copy(), mn=mn.copy(), mx=mx.copy())
+        shared["p"][:], shared["mn"][:], shared["mx"][:] = p, mn, mx
+        return shared["p"], shared["mn"], shared["mx"], ms
+    c = st.get("as", "array")
+    if c == "list":
+        return [float(a) for a in p], mn.copy(), mx.copy(), ms
+    if c == "list_all":
+        return [float(a) for a in p], [float(a) for a in mn], [float(a) for a in mx], ms
+    if c == "tuple_box":
+        return p.copy(), tuple(float(a) for a in mn), tuple(float(a) for a in mx), ms
+    if c == "float32":
+        return p.astype(np.float32), mn.copy(), mx.copy(), ms
+    if c == "int_box":
+        return p.copy(), mn.astype(int), mx.astype(int), ms
+    return p.copy(), mn.copy(), mx.copy(), ms
+
+
+def _digest(rec):
+    """time stamps and positions at fixed fractions of the time span (hex: exact)"""
+    ts = rec["ts"]
+    X = [[hx(a) for a in np.asarray(rec["f"](float(ts[0]) * fr), dtype=float)] for fr in SEQ_FRACTIONS]
+    return [hx(a) for a in ts], X
+
+
+def run_scenario(sc):
+    """Execute one scenario in THIS process; every returned pathline is checked against ITS OWN flow with
+    the clauses of check_pathline.  Returns one dict per `path` step."""
+    slots, flowdef, shared, out = {}, {}, {}, []
+    for st in sc["steps"]:
+        if st["op"] == "flow":
+            flowdef[st["slot"]] = st
+            slots[st["slot"]] = make_flow(FLOWS.index(st["flow"]), st["h"], st["v"], [unhx(a) for a in st["ps"]])
+        elif st["op"] == "drop":
+            slots.pop(st["slot"], None)
+            gc.collect()
+        else:
+            spec = step_spec(flowdef[st["slot"]], st)
+            rec = run_pathline(spec, callables=slots[st["slot"]], raw_args=_make_args(st, spec, shared))
+            stats = new_stats()
+            try:
+                fails = check_pathline(chk_dummy, spec, rec, stats)
+            except Exception as e:  # noqa: BLE001
+                fails = [f"the returned pathline cannot be evaluated: {type(e).__name__}: {str(e)[:160]}"]
+            known = is_known_pathline_failure(spec, rec, fails)
+            if rec["exc"] is not None and not known:
+                fails.append(f"get_pathline raised {rec['exc'][0]}: {rec['exc'][1]}")
+            res = {"exc": rec["exc"], "known": bool(known), "fails": fails, "solver_called": rec["t"] is not None,
+                   "event_calls": len(rec["calls"]), "ts": None, "X": None,
+                   "stats": {k: stats[k] for k in ("event_calls", "event_forward_jumps", "end_error_max", "outside_max",
+                                                   "strain_ratio_max", "ode_residual_max")}}
+            if rec["exc"] is None:
+                try:
+                    res["ts"], res["X"] = _digest(rec)
+                except Exception as e:  # noqa: BLE001
+                    res["fails"].append(f"the returned pathline cannot be evaluated: {type(e).__name__}: {str(e)[:160]}")
+                if st.get("scribble"):
+                    try:
+                        rec["ts_obj"][...] = np.nan       # the caller owns what was returned to it
+                    except Exception:  # noqa: BLE001
+                        pass
+            out.append(res)
+            del rec
+    slots.clear()
+    gc.collect()
+    return out
+
+
+def session_main(infile, outfile):
+    """entry point of the session subprocess: scenarios in, per-call results out"""
+    quiet()
+    warnings.simplefilter("ignore")
+    scs = json.load(open(infile))["scenarios"]
+    import pydrex.pathlines, pydrex.velocity, scipy.integrate  # noqa: F401,E401
+    gc.collect()
+    gc.freeze()        # the interpreter's start-up heap is permanent: the gc.collect() of every `drop` step stays cheap
+    res = [run_scenario(sc) for sc in scs]
+    with open(outfile, "w") as f:
+        json.dump({"results": res}, f)
+
+
+SESSION_ENV_KEEP = ("PATH", "HOME", "LANG", "LD_LIBRARY_PATH", "TMPDIR", "VIRTUAL_ENV", "NUMBA_CACHE_DIR", "PYDREX_REPO")
+# A defect that depends on recycled object addresses depends on the allocator's state, and that state depends on
+# everything the interpreter allocated since start-up -- even on the size of the environment.  The session
+# interpreter therefore gets a fixed, minimal environment (check, search and replay then see the same heap
+# history), and a replay that passes is repeated under a few other heap layouts (C18_HEAP_PAD) before it is
+# believed.
+HEAP_PADS = (0, 1, 24, 500)
+
+
+def start_sessions_subprocess(scenarios, pad=0):
+    """Start ONE fresh interpreter (fixed minimal environment, PYTHONHASHSEED=0) that runs the scenarios one
+    after the other; returns a handle for finish_sessions_subprocess (the caller can do other work meanwhile)."""
+    d = tempfile.mkdtemp(prefix="c18seq_")
+    fin, fout = os.path.join(d, "in.json"), os.path.join(d, "out.json")
+    with open(fin, "w") as f:
+        json.dump({"scenarios": scenarios}, f)
+    hdir = os.path.dirname(os.path.dirname(os.path.abspath(__file__)))
+    code = (f"import sys; sys.path.insert(0, {hdir!r}); import common; common.use_repo_source(); "
+            f"import props.c18 as m; m.session_main({fin!r}, {fout!r})")
+    env = {k: os.environ[k] for k in SESSION_ENV_KEEP if k in os.environ}
+    env["PYTHONHASHSEED"] = "0"
+    if pad:
+        env["C18_HEAP_PAD"] = "x" * pad
+    pr = subprocess.Popen([common.PY, "-c", code], stdout=subprocess.DEVNULL, stderr=subprocess.PIPE, text=True, env=env)
+    return pr, d, fin, fout
+
+
+def finish_sessions_subprocess(handle, timeout=900):
+    pr, d, fin, fout = handle
+    try:
+        try:
+            _, err = pr.communicate(timeout=timeout)
+        except subprocess.TimeoutExpired:
+            pr.kill()
+            _, err = pr.communicate()
+            raise RuntimeError(f"session subprocess did not finish within {timeout} s: " + (err or "")[-800:])
+        if pr.returncode != 0 or not os.path.exists(fout):
+            raise RuntimeError("session subprocess failed: " + (err or "")[-1500:])
+        return json.load(open(fout))["results"]
+    finally:
+        for f in (fin, fout):
+            if os.path.exists(f):
+                os.remove(f)
+        os.rmdir(d)
+
+
+def run_sessions_subprocess(scenarios, timeout=900, pad=0):
+    return finish_sessions_subprocess(start_sessions_subprocess(scenarios, pad=pad), timeout)
+
+
+def scenario_calls(sc):
+    """[(flowdef, path step)] in call order"""
+    flowdef, out = {}, []
+    for st in sc["steps"]:
+        if st["op"] == "flow":
+            flowdef[st["slot"]] = st
+        elif st["op"] == "path":
+            out.append((flowdef[st["slot"]], st))
+    return out
+
+
+def describe_call(sc, k, fd, st):
+    return (f"call {k} of sequence '{sc['family']}' ({fd['flow']}({fd['h']!r}, {fd['v']!r}, "
+            f"*{[unhx(a) for a in fd['ps']]}), final_location {st['p_float']}, max_strain {unhx(st['ms'])!r}, "
+            f"regular_steps {st['steps']}, arguments as {st['as'] if not st['reuse'] else 'reused arrays'})")
+
+
+def compare_sessions(chk, scenarios, results, stats, known_path_points):
+    """The correspondence of Model_pathline_session: the k-th result of every call history equals
+    post-processing(solve_ivp(arguments of call k)), with the oracle evaluated ON ITS OWN (new flow
+    objects, a private copy of pydrex.pathlines with fresh module state, each distinct request once, in this
+    process, i.e. under a different history) and the post-processing done by the extracted `timestamps`.
+    Returns [(scenario, message)]."""
+    bad = []
+    refs = {}
+    hist = chk.cov.setdefault("histogram", {})
+    seq = {"scenarios": len(scenarios), "calls": 0, "families": {}, "flows": {}, "containers": {}, "reused_argument_objects": 0,
+           "results_overwritten_by_caller": 0, "regular_steps": {}, "drop_and_collect_steps": 0, "known_brentq_failures": 0,
+           "calls_without_solver_call": 0, "max_timestamp_difference_rel": 0.0, "max_position_difference_rel": 0.0}
+    lines, pending = [], []
+    for sc, rs in zip(scenarios, results):
+        calls = scenario_calls(sc)
+        seq["families"][sc["family"]] = seq["families"].get(sc["family"], 0) + 1
+        seq["drop_and_collect_steps"] += sum(1 for st in sc["steps"] if st["op"] == "drop")
+        if len(calls) != len(rs):
+            bad.append((sc, f"sequence '{sc['family']}': {len(rs)} results for {len(calls)} calls"))
+            continue
+        for k, ((fd, st), r) in enumerate(zip(calls, rs)):
+            seq["calls"] += 1
+            hist["sequence:" + sc["family"]] = hist.get("sequence:" + sc["family"], 0) + 1
+            seq["flows"][fd["flow"]] = seq["flows"].get(fd["flow"], 0) + 1
+            cname = "reused arrays" if st["reuse"] else st["as"]
+            seq["containers"][cname] = seq["containers"].get(cname, 0) + 1
+            seq["reused_argument_objects"] += int(st["reuse"])
+            seq["results_overwritten_by_caller"] += int(st["scribble"])
+            seq["regular_steps"][str(st["steps"])] = seq["regular_steps"].get(str(st["steps"]), 0) + 1
+            seq["calls_without_solver_call"] += int(not r["solver_called"] and r["exc"] is None)
+            chk.note_case(("sequence", sc["family"], k, solver_key(fd, st), st["steps"], st["as"], st["reuse"]), nontrivial=True)
+            for key in ("event_calls", "event_forward_jumps"):
+                stats[key] += r["stats"][key]
+            for key in ("end_error_max", "outside_max", "strain_ratio_max", "ode_residual_max"):
+                stats[key] = max(stats[key], r["stats"][key])
+            where = describe_call(sc, k, fd, st)
+            for f in r["fails"]:
+                bad.append((sc, f"{where}: {f}"))
+            spec = step_spec(fd, st)
+            if r["known"]:
+                seq["known_brentq_failures"] += 1
+                known_path_points.append(spec)
+                stats["failing_end_points"].append({"flow": fd["flow"], "axes": fd["h"] + fd["v"], "final_location": st["p_float"],
+                                                    "max_strain": unhx(st["ms"]), "in_sequence": sc["family"]})
+            # ---- the oracle on its own
+            key = solver_key(fd, st)
+            if key not in refs:
+                refs[key] = run_pathline(spec[:8] + (None,), module=fresh_pathlines_module())
+            ref = refs[key]
+            if ref["exc"] is not None or r["exc"] is not None:
+                if (ref["exc"] is None) != (r["exc"] is None) or list(ref["exc"]) != list(r["exc"]):
+                    bad.append((sc, f"{where}: in the sequence get_pathline {'raised ' + str(r['exc']) if r['exc'] else 'returned'}, "
+                                    f"on its own the same request {'raises ' + str(ref['exc']) if ref['exc'] else 'returns'}"))
+                continue
+            if r["ts"] is None:
+                continue
+            lines.append(common.model_line("timestamps", [0 if st["steps"] is None else 1, st["steps"] or 0], list(ref["t"])))
+            pending.append((sc, where, spec, ref, r))
+    mres = common.run_model(lines, group=GROUP) if lines else []
+    for (sc, where, spec, ref, r), m in zip(pending, mres):
+        ts = [unhx(a) for a in r["ts"]]
+        T = abs(float(ref["t"][-1]))
+        size = float(np.max(spec[5] - spec[4]))
+        if m[0] != "OK" or len(m[1]) != len(ts):
+            bad.append((sc, f"{where}: {len(ts)} time stamps {ts[:3]}..., the same request on its own gives "
+                            f"{len(m[1]) if m[0] == 'OK' else m} time stamps {m[1][:3] if m[0] == 'OK' else ''}..."))
+            continue
+        dts = max(abs(a - b) for a, b in zip(ts, m[1])) / max(T, 1e-300)
+        seq["max_timestamp_difference_rel"] = max(seq["max_timestamp_difference_rel"], dts)
+        Xs = np.array([[unhx(a) for a in row] for row in r["X"]])
+        Xr = np.array([np.asarray(ref["f"](float(m[1][0]) * fr), dtype=float) for fr in SEQ_FRACTIONS])
+        dx = float(np.abs(Xs - Xr).max()) / size
+        seq["max_position_difference_rel"] = max(seq["max_position_difference_rel"], dx)
+        if dts > 1e-12 or dx > 1e-10:
+            bad.append((sc, f"{where}: the result depends on the call history: time stamps start at {ts[0]!r} and the pathline starts at "
+                            f"{list(Xs[-1])}; the same request computed on its own starts at t = {m[1][0]!r}, x = {list(Xr[-1])} "
+                            f"(relative differences {dts:.3e} in time, {dx:.3e} of the box in position)"))
+    seq["distinct_solver_requests"] = len(refs)
+    chk.cov["call_sequences"] = seq
+    return bad
+
+
+def encode_sequence(scs):
+    return {"call": SEQ_CALL, "scenarios": scs,
+            "how": "run the steps of each scenario in order in one fresh interpreter: 'flow' builds the callables of a slot, 'drop' "
+                   "forgets them and runs gc.collect(), 'path' calls get_pathline; every returned pathline must satisfy the clauses "
+                   "of C18 for the flow IT was requested for"}
+
+
+def sequence_failures(scs, pads=(0,)):
+    """property oracle on call sequences (fresh interpreter): clause failures of every returned pathline.
+    pads: heap layouts to try in turn until one shows a failure (see HEAP_PADS)."""
+    fails = []
+    for pad in pads:
+        for sc, rs in zip(scs, run_sessions_subprocess(scs, pad=pad)):
+            for k, ((fd, st), r) in enumerate(zip(scenario_calls(sc), rs)):
+                fails += [f"{describe_call(sc, k, fd, st)}: {f}" for f in r["fails"]]
+        if fails:
+            break
+    return fails
 
 
 # --------------------------------------------------------------------------
@@ -481,7 +935,7 @@ def classify_callable_failure(flow, fails):
     return None
 
 
-def search(chk, rng_seed, extra_specs=()):
+def search(chk, rng_seed, extra_specs=(), extra_scenarios=()):
     """Failing-input search: property oracle on the public API.  Known findings are only
     accepted when the failure has exactly their signature (shear: ratio 2 in the single
     non-zero entry; cell: only the two vertical-row entries / the trace)."""
@@ -543,6 +997,29 @@ def search(chk, rng_seed, extra_specs=()):
             found.append((encode_spec(spec), fails))
             if len(found) >= 3:
                 break
+    # call sequences: the scenarios that disagreed, each ON ITS OWN in a fresh interpreter (so that the replay
+    # file is self-contained), then all of them together, then a fresh set
+    if len(found) < 3:
+        cands, count = [], {}
+        for sc in extra_scenarios:
+            if id(sc) not in count:
+                cands.append(sc)
+            count[id(sc)] = count.get(id(sc), 0) + 1
+        cands.sort(key=lambda sc: -count[id(sc)])       # the sequence with the most failing calls first
+        nseq = 0
+        for sc in cands[:4]:
+            fails = sequence_failures([sc])
+            if fails:
+                found.append((encode_sequence([sc]), fails[:6]))
+                nseq += 1
+                if len(found) >= 3:
+                    break
+        if not nseq:
+            for scs in ([cands] if len(cands) > 1 else []) + [gen_scenarios(np.random.default_rng([rng_seed, 18]), "quick")]:
+                fails = sequence_failures(scs)
+                if fails:
+                    found.append((encode_sequence(scs), fails[:6]))
+                    break
     return found
 
 
@@ -615,6 +1092,10 @@ def run(chk):
         "scipy.integrate.solve_ivp (hypothesis used by the theorems: times start at 0 and strictly decrease; checked on every run). "
         "dx/dt = u(x), staying in the box, ending at the requested point and strain <= 1.25 max are NOT proved: they are measured on real "
         "get_pathline runs (see runtime_checked)",
+        "hand-written Model_pathline_session.v (get_pathline as a function of its arguments; a call history is the map of the single "
+        "call; memoizing variants); tie H = the call-sequence run: every result of every sequence is compared with the extracted "
+        "`timestamps` applied to solve_ivp's result for the same request computed on its own (new flow objects, private copy of the "
+        "module, other process, other history)",
     ]
     chk.cov["rule"] = (
         "kernels: three flows x six axis-letter pairs (upper and lower case) x velocity/gradient callables at random points (interior of the "
@@ -623,11 +1104,21 @@ def run(chk):
         "corner flow (NaN). strain_increment: random dt, L (10^U(-15,3)) with the eigvalsh oracle value passed to the model. _is_inside/_ivp_func: "
         "random boxes and points incl. faces and size mismatch. pathlines: real get_pathline runs (3 flows x 6 axis pairs x boxes x strain limits "
         "x regular_steps), every call of the terminal event recorded and replayed through the extracted state machine, solve_ivp's times through "
-        "the time-stamp model. distinct = distinct inputs; non-trivial = some output non-zero")
-    bad, path_bad = [], []
+        "the time-stamp model. call sequences (one fresh interpreter, see coverage.call_sequences): parameter sweeps of each flow family at a "
+        "FIXED end point / box / strain limit with every flow dropped and garbage collected before the next one (incl. the 2D-in-3D box in SI "
+        "units), the same sweeps with all flows alive (parameters and the six axis pairs), repeated identical requests (same argument objects, "
+        "returned time stamps overwritten by the caller in between, regular_steps varied), interleaved requests of two live flows, one "
+        "argument changed at a time with the ndarray objects reused and overwritten in place, lists / tuples / float32 / integer boxes, and "
+        "fixed boundary values (end point on a face / edge / corner / the line u = 0, strain limit 1e-9 and 1e6, regular_steps = 1); every "
+        "returned pathline is checked against ITS OWN flow with the same clauses and against the same request computed on its own. "
+        "distinct = distinct inputs; non-trivial = some output non-zero")
+    bad, path_bad, seq_bad = [], [], []
     stats = new_stats()
     known_path_points = []
     if br.drivers.get(GROUP, 1) is None:
+        # call sequences run in their own fresh interpreter, concurrently with the cases below
+        scenarios = gen_scenarios(np.random.default_rng([chk.seed, 18]), chk.tier)
+        session = start_sessions_subprocess(scenarios)
         kc = gen_kernel_cases(rng, chk.tier)
         bad += compare_kernels(chk, kc, rtol=1e-10)
         bad += compare_strain_increment(chk, rng, chk.tier)
@@ -659,14 +1150,16 @@ def run(chk):
                                            "n_timestamps": int(len(rec["ts"])), "event_calls": len(rec["calls"])})
             for f in fails:
                 path_bad.append((spec, f))
-        chk.cov["traces_validated_against_impl"] = len(kc) + stats["pathlines"]
+        seq_results = finish_sessions_subprocess(session)
+        seq_bad = compare_sessions(chk, scenarios, seq_results, stats, known_path_points)
+        chk.cov["traces_validated_against_impl"] = len(kc) + stats["pathlines"] + chk.cov["call_sequences"]["calls"]
     stats["strain_ratios"] = sorted(stats["strain_ratios"])[-8:]
     chk.cov["runtime_checked"] = {
         "note": "clauses about solve_ivp's trajectory, measured on real get_pathline runs (not proved)",
         **{k: v for k, v in stats.items()},
         "thresholds": {"end_error": "1e-9 x box", "outside": "2e-3 x box", "strain": "1.25 x max_strain (+0.1%)", "ode_residual": "5e-2 relative"},
     }
-    chk.cov["disagreements"] = len(bad) + len(path_bad)
+    chk.cov["disagreements"] = len(bad) + len(path_bad) + len(seq_bad)
 
     # ---- known findings: printed only while the witness reproduces on the implementation
     findings = {}
@@ -683,7 +1176,7 @@ def run(chk):
         others = [s for s in known_path_points if s is not WITNESS_PATH]
         findings[KF_PATH] = ("get_pathline raises ValueError('f(a) and f(b) must have different signs') -- the terminal event is stateful "
                              "(Coq: C18_event_not_a_function); witness cell_2d('X','Z',1), box [-1,1]^3, final_location (0.6, 0, 0.6), max_strain 0.5; "
-                             f"same signature at {len(others)} of {stats['pathlines'] - 1} other end points of this run "
+                             f"same signature at {len(others)} of {stats['pathlines'] - 1 + chk.cov.get('call_sequences', {}).get('calls', 0)} other requests of this run "
                              "(listed in evidence: runtime_checked.failing_end_points)")
     elif known_path_points:
         # the same failure class without its recorded witness: not covered by the finding
@@ -693,22 +1186,24 @@ def run(chk):
         chk.known_finding(f"{k} :: {text}")
     chk.cov["known_findings_reproducing"] = sorted(findings)
 
-    if ok and not bad and not path_bad:
+    if ok and not bad and not path_bad and not seq_bad:
         return
-    found = search(chk, chk.seed + 1, extra_specs=[s for s, _ in path_bad][:6])
+    found = search(chk, chk.seed + 1, extra_specs=[s for s, _ in path_bad if isinstance(s, tuple)][:6],
+                   extra_scenarios=[sc for sc, _ in seq_bad])
     if found:
         for inp, fails in found[:3]:
             chk.replay({"kind": "property-violation", "input": inp, "observed": fails,
                         "required": "C18 (see properties.jsonl)", "broken": chk.cov.get("broken_obligations", []),
-                        "disagreements": [m for _, m in (bad + path_bad)[:3]]})
+                        "disagreements": [m for _, m in (bad + path_bad + seq_bad)[:3]]})
     else:
         note = "proof obligation or correspondence no longer checks; no failing input found by the search"
         if not witness_shear() or not witness_cell():
             note += ("; NOTE a known finding (shear / cell gradient) no longer reproduces on the implementation: its `_partial` theorem is "
                      "expected to break -- replace it by the full statement (Findings/C18_*.v then stop compiling)")
         chk.replay({"kind": "unproved", "broken": chk.cov.get("broken_obligations", []),
-                    "disagreements": [{"input": (encode_spec(c) if isinstance(c, tuple) and len(c) == 9 else repr(c)[:400]), "detail": m}
-                                      for c, m in (bad + path_bad)[:3]],
+                    "disagreements": [{"input": (encode_spec(c) if isinstance(c, tuple) and len(c) == 9 else
+                                                 encode_sequence([c]) if isinstance(c, dict) and "steps" in c else repr(c)[:400]), "detail": m}
+                                      for c, m in (bad + path_bad + seq_bad)[:3]],
                     "note": note}, no_input=True)
 
 
@@ -720,7 +1215,9 @@ def replay(d):
         return 1
     inp = d["input"]
     fails = []
-    if inp["call"].endswith("get_pathline"):
+    if inp["call"] == SEQ_CALL:
+        fails = sequence_failures(inp["scenarios"], pads=HEAP_PADS)
+    elif inp["call"].endswith("get_pathline"):
         spec = decode_spec(inp)
         rec = run_pathline(spec)
         fails = check_pathline(chk_dummy, spec, rec, new_stats()) if os.path.exists(os.path.join(common.EXTRACT, GROUP, "driver")) else []
